@@ -1,4 +1,4 @@
 """the properties that have a check, in build order"""
-PROPS = ["C11", "C13", "C10", "C12", "C09", "C01", "C02", "C03", "C05", "C06", "C07", "C08", "C14", "C15", "C16", "C17", "C18", "C19", "C20"]
+PROPS = ["C11", "C13", "C10", "C12", "C09", "C01", "C02", "C03", "C04", "C05", "C06", "C07", "C08", "C14", "C15", "C16", "C17", "C18", "C19", "C20"]
 NOT_APPLICABLE = []
-NOTES = "Work in progress: properties not yet listed under checks are being built; see DESIGN.md."
+NOTES = "All 20 properties have a check; none is listed as not applicable. See DESIGN.md (section 10: as built)."
